@@ -284,7 +284,10 @@ def step (st : DState) (line : String) : DState × String :=
           | none =>
             match ledgerRequest st.cfg sx with
             | some r => (st, r)
-            | none => (st, "(bad-op unknown)")
+            | none =>
+              match cwprogRequest sx with
+              | some r => (st, r)
+              | none => (st, "(bad-op unknown)")
 
 partial def loop (h : IO.FS.Stream) (out : IO.FS.Stream) (st : DState) : IO Unit := do
   let line ← h.getLine
